@@ -714,6 +714,12 @@ def run(ctx, rep):
             n += 1
             rv, cv = ref.get(part, {}).get(k), cur.get(part, {}).get(k)
             rule = "V3" if k.startswith("fn:") else "V2"
+            if rv is None and k.startswith("fn:<"):
+                # a derived impl (PartialEq, Clone ...) of a new private type: what it is used for shows in its users
+                fb = F.bodies.get(P + k[4:]) or F.bodies.get(k[3:].replace("fn:", "")) or F.bodies.get("<" + P + k[4:])
+                if fb is not None and any(x in ("PartialEq", "Eq", "Clone", "Copy", "Debug", "Default", "PartialOrd", "Ord", "Hash") for x in (fb.j.get("exp") or [])):
+                    n -= 1
+                    continue
             if isinstance(cv, str) and cv.startswith("UNRECOGNISED-IDIOM"):
                 rep.add(rule, "UNRECOGNISED-IDIOM:" + k, False, "", cv)
                 continue
